@@ -77,6 +77,10 @@ pub struct Case {
     /// scanner (the builder takes `&mut self`, so it can be called between two `next()` calls)
     #[serde(default)]
     pub reconfig: Vec<(usize, Block)>,
+    /// C02: how the scanner is exhausted after `consumed` explicit next() calls: 0 = next() until None,
+    /// 1 = for_each, 2 = fold, 3 = count, 4 = collect::<Vec>, 5 = last, 6 = max_by (score)
+    #[serde(default)]
+    pub finish: u8,
 }
 
 fn next_up(x: f32) -> f32 {
@@ -195,9 +199,10 @@ fn case_strategy(tier: Tier, near_tie: bool) -> BoxedStrategy<Case> {
             proptest::collection::vec(block_strategy(), 2),
             any::<bool>(),
             prop_oneof![3 => Just(Vec::new()), 1 => proptest::collection::vec((prop_oneof![3 => 1usize..=4, 1 => 5usize..=60], block_strategy()), 1..=3)],
+            prop_oneof![3 => Just(0u8), 2 => 1u8..=6],
         ),
     )
-        .prop_map(|(seq, mat, embed, extra_wrap, block, thr, arm, own_buffer, consumed, (alt_blocks, exact_alloc, reconfig))| Case {
+        .prop_map(|(seq, mat, embed, extra_wrap, block, thr, arm, own_buffer, consumed, (alt_blocks, exact_alloc, reconfig, finish))| Case {
             seq,
             mat,
             embed,
@@ -210,6 +215,7 @@ fn case_strategy(tier: Tier, near_tie: bool) -> BoxedStrategy<Case> {
             alt_blocks,
             exact_alloc,
             reconfig,
+            finish,
         })
         .boxed()
 }
@@ -304,6 +310,7 @@ fn long_cases() -> Vec<Case> {
             alt_blocks: vec![Block::Fixed(70000), Block::Default],
             exact_alloc: false,
             reconfig: Vec::new(),
+            finish: 0,
         });
     }
     out
@@ -321,7 +328,7 @@ impl Sub for Exhaust {
         "exhaust"
     }
     fn rule(&self) -> &'static str {
-        "DNA sequence (L 0..2100, plus 8192+-40) x matrix (library / finite incl. finite wildcard column / -inf cells / small-int) x extra wrap rows x block size derived from the row count (R+d, ceil((R+d)/2), 1..64, 256, default) x threshold derived from the actual scores (exact score, next float above, midpoint, below min, -1e9, -inf, above max, default 0) x forced dispatcher arm x own score buffer x (1 case in 4) 1-3 block_size() calls on the running scanner between two hits; next() to exhaustion compared as a multiset with {(i, s_i): s_i >= t}; non-trivial = expected set neither empty nor everything and >= 2 blocks"
+        "DNA sequence (L 0..2100, plus 8192+-40) x matrix (library / finite incl. finite wildcard column / -inf cells / small-int) x extra wrap rows x block size derived from the row count (R+d, ceil((R+d)/2), 1..64, 256, default) x threshold derived from the actual scores (exact score, next float above, midpoint, below min, -1e9, -inf, above max, default 0) x forced dispatcher arm x own score buffer x (1 case in 4) 1-3 block_size() calls on the running scanner between two hits x exhaustion by next() or (2 in 5) by k next() calls followed by for_each / fold / count / collect / last / max_by; the hits compared as a multiset with {(i, s_i): s_i >= t}; non-trivial = expected set neither empty nor everything and >= 2 blocks"
     }
     fn cases(&self, tier: Tier) -> u64 {
         tier.pick(100_000, 3_000_000)
@@ -374,7 +381,11 @@ impl Sub for Exhaust {
         let mut got: Vec<(usize, u32)> = Vec::new();
         let cap = n + 2;
         let mut switched = 0usize;
-        loop {
+        // `consumed` explicit next() calls, then the rest through one of the iterator's consuming adaptors
+        // (all of them exhaust the scanner: together with the explicit calls they must yield the same hits)
+        let explicit = if case.finish == 0 { usize::MAX } else { case.consumed.min(n + 2) };
+        let mut exhausted = false;
+        while got.len() < explicit {
             for (h, b) in &case.reconfig {
                 if *h == got.len() {
                     if let Some(b) = b.resolve(s.rows) {
@@ -393,11 +404,59 @@ impl Sub for Exhaust {
                         ));
                     }
                 }
-                None => break,
+                None => {
+                    exhausted = true;
+                    break;
+                }
             }
         }
-        if scanner.next().is_some() {
-            return Verdict::Fail(Failure::new(format!("{}:not-fused", arm_sig(case.arm)), "next() after None yields a hit".to_string()));
+        let mut counted_only: Option<usize> = None;
+        let mut single: Option<Option<(usize, u32)>> = None;
+        if case.finish == 0 {
+            if scanner.next().is_some() {
+                return Verdict::Fail(Failure::new(format!("{}:not-fused", arm_sig(case.arm)), "next() after None yields a hit".to_string()));
+            }
+        } else if !exhausted {
+            let key = |h: &lightmotif::scan::Hit| (h.position(), h.score().to_bits());
+            match case.finish {
+                1 => scanner.for_each(|h| got.push(key(&h))),
+                2 => got = scanner.fold(got, |mut acc, h| {
+                    acc.push(key(&h));
+                    acc
+                }),
+                3 => counted_only = Some(scanner.count()),
+                4 => got.extend(scanner.collect::<Vec<_>>().iter().map(key)),
+                5 => single = Some(scanner.last().map(|h| key(&h))),
+                _ => single = Some(scanner.max_by(|a, b| a.score().partial_cmp(&b.score()).unwrap()).map(|h| key(&h))),
+            }
+            info.class("exhausted-through-a-consuming-adaptor");
+        }
+        if let Some(c) = counted_only {
+            info.comparisons += 1;
+            if got.len() + c != expected.len() {
+                return Verdict::Fail(Failure::new(
+                    format!("{}:count-after-next", arm_sig(case.arm)),
+                    format!("{} hits through next() and count() = {} for the rest, expected {} in total", got.len(), c, expected.len()),
+                ));
+            }
+            return Verdict::Pass(info);
+        }
+        if let Some(sg) = single {
+            // last(): some remaining hit iff any remains; max_by(score): the best remaining score
+            info.comparisons += 1;
+            let remaining: Vec<&(usize, u32)> = expected.iter().filter(|e| !got.contains(e)).collect();
+            let ok = match sg {
+                None => remaining.is_empty(),
+                Some(h) => remaining.contains(&&h) && (case.finish == 5 || remaining.iter().all(|e| f32::from_bits(e.1) <= f32::from_bits(h.1))),
+            };
+            let genuine = got.iter().all(|g| expected.contains(g));
+            if !ok || !genuine {
+                return Verdict::Fail(Failure::new(
+                    format!("{}:{}-after-next", arm_sig(case.arm), if case.finish == 5 { "last" } else { "max_by" }),
+                    format!("after {} next() calls the adaptor returned {:?}; {} hits remained", got.len(), sg.map(|h| (h.0, f32::from_bits(h.1))), remaining.len()),
+                ));
+            }
+            return Verdict::Pass(info);
         }
         info.comparisons += (got.len() + expected.len()) as u64;
         info.class_if(switched > 0 && got.len() > case.reconfig.iter().map(|r| r.0).min().unwrap_or(0), "block-size-changed-between-two-hits");
